@@ -251,8 +251,8 @@ def line_body_axioms(x):
 
 
 def _line_body_of_concat(interp, whole, parts):
-    """line_body is a measure over concatenation: if whole == p1 . ... . pk and pk is not empty and ends in
-    '\n' then line_body(whole) == p1 . ... . line_body(pk)  (valid for all strings; self-guarded)"""
+    """line_body is a measure over concatenation: if whole == p1 . ... . pk and pk is not empty then
+    line_body(whole) == p1 . ... . line_body(pk)  (valid for all strings; self-guarded)"""
     if len(parts) < 2:
         return
     st = interp.st
@@ -270,12 +270,12 @@ def _line_body_of_concat(interp, whole, parts):
     if key in st.ghost:
         return
     st.ghost[key] = (whole, last)
-    guard = z3.And(whole == z3.Concat(*parts), z3.SuffixOf(_nl(), last))
+    # for a non-empty pk (whether it ends in '\n' or not): line_body(whole) == p1 . ... . line_body(pk)
+    # (pk ends in '\n': both sides are whole[:-1]; it does not: neither does whole, both sides are whole) --
+    # ONE equation without a case distinction on the ending, which is what the string solvers get lost in
+    guard = z3.And(whole == z3.Concat(*parts), z3.Length(last) > 0)
     rhs = z3.Concat(*(list(parts[:-1]) + [_body_fn()(last)]))
     st._add(z3.Implies(guard, _body_fn()(whole) == rhs))
-    # ... and if pk is not empty and does not end in '\n', neither does the whole: line_body(whole) == whole
-    st._add(z3.Implies(z3.And(whole == z3.Concat(*parts), z3.Not(z3.SuffixOf(_nl(), last)), z3.Length(last) > 0),
-                       _body_fn()(whole) == whole))
     for ax in line_body_axioms(last):
         st._add(ax)
 
